@@ -1028,6 +1028,12 @@ func (w *wworld) sync(x *wdt, fault int) {
 		w.c.Violate("C16", "error-not-delivered", fmt.Sprintf("an error response for key %q was not reported to the error handler", x.key), w.desc)
 		w.c.Violate("C13", "error-not-delivered", fmt.Sprintf("an error response for key %q was not reported to the error handler", x.key), w.desc)
 	}
+	// C13: nothing a subscriber had buffered locally survives the subscription
+	if fault != 2 && !isErr && wasDue && resp.GetPushPullPackOption().HasSubscribeBit() && r.dt.GetState() == model.StateOfDatatype_SUBSCRIBED {
+		if n := len(r.dt.CreatePushPullPack().Operations); n > 0 {
+			w.c.Violate("C13", "buffered-operations-survive-subscribe", fmt.Sprintf("key %q: after subscribing at log position %d the client still offers %d operations it had issued before", x.key, resp.CheckPoint.Sseq, n), w.desc)
+		}
+	}
 	// C13: a new subscriber's first state is the datatype's state at the log position it subscribed at
 	if fault != 2 && !isErr && wasDue && resp.GetPushPullPackOption().HasSubscribeBit() && r.dt.GetState() == model.StateOfDatatype_SUBSCRIBED &&
 		len(r.dt.CreatePushPullPack().Operations) == 0 && !w.dirty {
